@@ -9,6 +9,7 @@ import Rox.Lemmas.Size
 import Rox.Lemmas.RoundTrip
 import Rox.Lemmas.RoundTrip2
 import Rox.Lemmas.RoundTrip4
+import Rox.Lemmas.RoundTrip5
 import Rox.Lemmas.Emits
 import Rox.Props.C01
 
@@ -230,5 +231,56 @@ theorem prolog_variation_insensitive (y y' : Rox.Spec.Canon4.YDoc)
   obtain ⟨d, h1, h2⟩ := whole_document_mirrors y hy opt hdtd hlim hl32 hattrs
   obtain ⟨d', h1', h2'⟩ := whole_document_mirrors y' hy' opt hdtd' (hsame ▸ hlim) hl32 (hsame ▸ hattrs)
   exact ⟨d, d', h1, h1', by rw [h2, h2', hsame]⟩
+
+/-- every range of `rs` lies inside one range of `rs'` -/
+def rangesSub (rs rs' : List (Nat × Nat)) : Bool :=
+  rs.all fun r => rs'.any fun r' => r'.1 ≤ r.1 && r.2 ≤ r'.2
+
+theorem inRanges_sub {rs rs' : List (Nat × Nat)} (h : rangesSub rs rs' = true) (c : Nat)
+    (hc : inRanges rs c = true) : inRanges rs' c = true := by
+  simp only [inRanges, List.any_eq_true, Bool.and_eq_true, decide_eq_true_eq] at hc ⊢
+  obtain ⟨r, hr, h1, h2⟩ := hc
+  simp only [rangesSub, List.all_eq_true, List.any_eq_true, Bool.and_eq_true,
+    decide_eq_true_eq] at h
+  obtain ⟨r', hr', h3, h4⟩ := h r hr
+  exact ⟨r', hr', by omega, by omega⟩
+
+/-- The table facts for the full character repertoire (byte tables agree with the character tables
+on ASCII, NameStartChar ⊆ NameChar, delimiters are not name-start characters) hold of the tables of
+the build (re-checked whenever `Generated.lean` changes). -/
+theorem generated_tables_canon5 : TablesCanon5 Generated.tables := by
+  refine ⟨?_, ?_, ?_, ?_, ?_, ?_⟩
+  · apply all_bytes; decide +kernel
+  · apply all_bytes; decide +kernel
+  · apply all_bytes; decide +kernel
+  · exact inRanges_sub (rs := Generated.implNameStart) (rs' := Generated.implName) (by decide)
+  · apply all_bytes; decide +kernel
+  · decide
+
+/-- **Whole documents over the full character repertoire** (`parse ∘ renderDoc` for EVERY document of
+the class `Rox.Spec.Canon5.docOk5`: as `whole_document_mirrors`, with element, attribute, PI and
+DOCTYPE names drawn from the full NameStartChar / NameChar ranges of XML 1.0 5th ed. (any script,
+any length, multi-byte characters; no ':'), and text, attribute values, comment bodies and PI values
+arbitrary sequences of XML characters — astral ones included — minus what would be markup or would be
+changed by the parser): the tree is exactly the document; local names, comment bodies, PI targets and
+values, texts and attribute values are the exact source strings. -/
+theorem whole_document_mirrors_full_repertoire (y : Rox.Spec.Canon4.YDoc)
+    (hy : Rox.Spec.Canon5.docOk5 Generated.tables y = true) (opt : Opt)
+    (hdtd : y.doctype.isSome = true → opt.allowDtd = true)
+    (hlim : Rox.Spec.Canon4.countAllY y.items + 1 ≤ opt.nodesLimit) (hl32 : opt.nodesLimit ≤ 4294967295)
+    (hattrs : Rox.Spec.Canon4.attrCountAllY y.items < 4294967295) :
+    ∃ d, parse Generated.tables (Rox.Spec.Canon4.renderDoc y) opt = .ok d ∧
+      d.nodes.toList.map (Rox.Spec.Canon4.viewY d) =
+        some (none, Rox.Spec.Canon4.YKind.root) ::
+          (Rox.Spec.Canon4.expectAllY 0 1 y.items).map some :=
+  parse_renderDoc5 Generated.tables C01.generated_tables_ok generated_tables_canon generated_tables_canon4
+    generated_tables_canon5 y hy opt hdtd hlim hl32 hattrs
+
+/-- The class is not the ASCII one: `<ré_中 a·1="é">😀</ré_中>` is in it. -/
+example : Rox.Spec.Canon5.docOk5 Generated.tables
+    { bom := false, decl := none, pre := [], doctype := none, mid := [],
+      name := [114, 195, 169, 95, 228, 184, 173], attrs := [([97, 194, 183, 49], [195, 169])],
+      kids := [.text [240, 159, 152, 128]], post := [], ws := [] } = true := by
+  decide +kernel
 
 end Rox.Props.C03
